@@ -385,9 +385,9 @@ func scenarios(thorough bool) []scenario {
 	var out []scenario
 	var names []string
 	for _, r := range roles {
-		// quick: queryA (a query that overlaps only A), writerC (creates a third segment) and expiredRange are left
+		// quick: queryA (a query that overlaps only A), writerC (creates a third segment), expiredRange and metrics are left
 		// to the thorough tier; they multiply the scenario count without adding a new kind of collision.
-		if !thorough && (r.name == "queryA" || r.name == "writerC" || r.name == "expiredRange") {
+		if !thorough && (r.name == "queryA" || r.name == "writerC" || r.name == "expiredRange" || r.name == "metrics") {
 			continue
 		}
 		names = append(names, r.name)
